@@ -14,7 +14,7 @@ LEAN_PROOF_TARGETS = ["PyroProps.C15"]
 AUDIT_FILES = ["PyroModel/Lock.lean", "PyroModel/NsOps.lean", "PyroModel/Gen/C15.lean", "PyroModel/LockSkeleton.lean", "PyroProofs/Lock.lean",
                "PyroProps/C15.lean"]
 THEOREMS = ["Pyro.C15.C15_gen_locked", "Pyro.C15.C15_source_every_access_locked", "Pyro.C15.C15_linearizable", "Pyro.C15.C15_results_explained",
-            "Pyro.C15.C15_safe_register_once", "Pyro.C15.C15_remove_once", "Pyro.Lock.atomic", "Pyro.Lock.book"]
+            "Pyro.C15.C15_safe_register_once", "Pyro.C15.C15_remove_once", "Pyro.C15.C15_failed_no_effect", "Pyro.Lock.atomic", "Pyro.Lock.book"]
 SUITES = ["sequential", "interleaved"]
 RULE = ("(a) sequential histories of register/set_metadata/remove/remove-prefix/lookup/count/list on the real NameServer vs the "
         "model; (b) small sets of concurrent client programs (1-2 ops each, shared names) run on the REAL NameServer under the "
@@ -214,10 +214,54 @@ def canon_all(d):
                              for n, (u, meta) in sorted(d.items())) + ">"
 
 
+def _autoclean_pass(ns):
+    """one pass of the REAL AutoCleaner thread body (Pyro5.nameserver.AutoCleaner.run) in the calling thread: every registered
+    uri counts as unreachable for long enough, so the pass removes every name it listed (the reserved names excepted).  The
+    cleaner is the one writer besides the clients that lives inside the server: its removals are operations like a client's."""
+    import socket
+    import time as real_time
+    from Pyro5 import nameserver, config
+
+    class Clock:
+        def __init__(self):
+            self.sleeps = 0
+            self.cleaner = None
+
+        def sleep(self, d):
+            self.sleeps += 1
+            if self.sleeps > 1:
+                self.cleaner.stop = True          # one pass only
+
+        def time(self):
+            return 1.0e9
+
+        def __getattr__(self, name):
+            return getattr(real_time, name)
+
+    def unreachable(*a, **k):
+        raise socket.error("scripted: nothing answers")
+    clock = Clock()
+    saved = (config.NS_AUTOCLEAN, nameserver.time, nameserver.socketutil.create_socket)
+    try:
+        config.NS_AUTOCLEAN = 3
+        cleaner = nameserver.AutoCleaner(ns)
+        clock.cleaner = cleaner
+        cleaner.max_unreachable_time = 0.0
+        cleaner.last_cleaned = 0.0
+        nameserver.time = clock
+        nameserver.socketutil.create_socket = unreachable
+        cleaner.run()
+        return "none"
+    finally:
+        config.NS_AUTOCLEAN, nameserver.time, nameserver.socketutil.create_socket = saved
+
+
 def real_do(ns, op):
     from Pyro5 import errors
     k = op[0]
     try:
+        if k == "A":
+            return _autoclean_pass(ns)
         if k == "E":
             d = ns.list(return_metadata=True)
             text = canon_all(d)
@@ -323,6 +367,69 @@ def _sequential(ctx, n):
             ctx.mismatch("sequential", {"line": l}, r, o)
 
 
+# ---- all or nothing: an operation that fails leaves the map as it was (C15_failed_no_effect), on both back-ends -------------
+def _all_or_nothing(ctx, n):
+    import shutil
+    import tempfile
+    from Pyro5 import nameserver, errors
+    rng = ctx.sub_rng("allornothing")
+    tmp = tempfile.mkdtemp(prefix="c15sql")
+    try:
+        for h in range(n):
+            backend = "sql" if h % 2 == 0 else "memory"
+            if backend == "sql":
+                store = nameserver.SqlStorage(os.path.join(tmp, "ns%d.sql" % h))
+            else:
+                store = nameserver.MemoryStorage()
+            ns = nameserver.NameServer(store)
+            ops = []
+            for _ in range(rng.choice([2, 3, 5, 8])):
+                r = rng.random()
+                if r < 0.45:
+                    ops.append(gen_op(rng))
+                else:
+                    # metadata the storage may refuse half way through the write: hashable (so the name server's own checks pass)
+                    # but not storable everywhere
+                    bad = rng.choice([[None], [("a", 1)], [None, "x"], ["x", None], [1.5, None]])
+                    name = rng.choice(NAMES[:3])
+                    ops.append(("R!", name, rng.randint(1, 9), rng.random() < 0.3, bad) if rng.random() < 0.6 else ("M!", name, bad))
+            done = []
+            for op in ops:
+                before = dict(ns.storage.everything(return_metadata=True))
+                failed = None
+                try:
+                    if op[0] == "R!":
+                        ns.register(op[1], uri_of(op[2]), safe=op[3], metadata=op[4])
+                    elif op[0] == "M!":
+                        ns.set_metadata(op[1], op[2])
+                    else:
+                        if real_do(ns, op) == "nerr":
+                            failed = "NamingError"
+                except errors.NamingError:
+                    failed = "NamingError"
+                except Exception as x:
+                    failed = type(x).__name__
+                done.append(op)
+                ctx.evaluations += 1
+                after = dict(ns.storage.everything(return_metadata=True))
+                if failed:
+                    ctx.count("failed-op:" + backend)
+                    if len(before) > 0:
+                        ctx.nontriv(("aon", backend, repr(done)))
+                if failed and after != before:
+                    ctx.fail("failed-op-has-effect:" + backend, "%r failed with %s on the %s back-end but changed the map: %r -> %r"
+                             % (op, failed, backend, sorted(before), sorted(after)),
+                             {"backend": backend, "ops": [list(o) for o in done]})
+                    break
+            if backend == "sql":
+                try:
+                    store.close()
+                except Exception:
+                    pass
+    finally:
+        shutil.rmtree(tmp, ignore_errors=True)
+
+
 # ---- concurrent programs on the real NameServer under the deterministic scheduler ---------------------
 STORAGE_POINTS = ["__getitem__", "__setitem__", "__delitem__", "__contains__", "__len__", "__iter__", "keys", "items", "copy", "values"]
 
@@ -353,6 +460,11 @@ PROGRAM_SETS = [
     ({"a": 1}, [[("L", "a")], [("M", "a", [2]), ("L", "a")]]),
     ({"a": 1, "ab": 2}, [[("L", "a")], [("P", "a"), ("L", "a"), ("C",)]]),
     ({"a": 1}, [[("L", "a"), ("L", "a")], [("R", "a", 5, False, [3])], [("D", "a")]]),
+    # the auto-clean thread (one pass of the real AutoCleaner.run) next to clients
+    ({"a": 1}, [[("A",)], [("D", "a")]]),
+    ({"a": 1}, [[("A",)], [("M", "a", [2])], [("L", "a")]]),
+    ({"a": 1, "ab": 2}, [[("A",)], [("P", "a")], [("C",)]]),
+    ({"a": 1}, [[("A",)], [("R", "a", 5, False, [])], [("S", "")]]),
 ]
 
 # after the threads have finished, the main thread looks at every name once more: whatever a race left behind
@@ -473,23 +585,34 @@ def run_programs(policy, init, programs, wrapped=False):
 def sequential_outcomes(init, programs):
     """every outcome some sequential order (respecting each thread's program order) produces"""
     outs = set()
-    idx = [0] * len(programs)
 
-    def rec(ref, idx, results):
-        if all(idx[i] == len(programs[i]) for i in range(len(programs))):
+    def rec(ref, rem, results):
+        if all(not r for r in rem):
             r3 = Ref(ref.d)
             outs.add((tuple(tuple(r) for r in results), (ref.listing(), tuple(r3.do(op) for op in EPILOGUE))))
             return
-        for i in range(len(programs)):
-            if idx[i] < len(programs[i]):
+        for i in range(len(rem)):
+            if rem[i]:
+                op = rem[i][0]
                 r2 = Ref(ref.d)
-                res = r2.do(programs[i][idx[i]])
                 nr = [list(r) for r in results]
-                nr[i].append(res)
-                ni = list(idx)
-                ni[i] += 1
-                rec(r2, ni, nr)
-    rec(Ref({n: (u, ()) for n, u in init.items()}), idx, [[] for _ in programs])
+                nrem = [list(r) for r in rem]
+                if op[0] == "A":
+                    # an auto-clean pass: one atomic listing, then one atomic removal per listed name (a name that has gone
+                    # in the meantime is simply not there any more); its result is None
+                    names = [n for n in r2.d if n not in ("Pyro.NameServer", "Pyro.Daemon")]
+                    nrem[i] = [("a-rm", n) for n in names] + [("a-end",)] + nrem[i][1:]
+                elif op[0] == "a-rm":
+                    r2.do(("D", op[1]))
+                    nrem[i] = nrem[i][1:]
+                elif op[0] == "a-end":
+                    nr[i].append("none")
+                    nrem[i] = nrem[i][1:]
+                else:
+                    nr[i].append(r2.do(op))
+                    nrem[i] = nrem[i][1:]
+                rec(r2, nrem, nr)
+    rec(Ref({n: (u, ()) for n, u in init.items()}), [list(p) for p in programs], [[] for _ in programs])
     return outs
 
 
@@ -566,12 +689,43 @@ def correspondence(ctx):
 
 def oracle(ctx):
     common.repo_on_path()
+    _all_or_nothing(ctx, ctx.n(120, 3000))
     _interleaved(ctx)
 
 
 def replay(ctx, case):
     f = case.get("failing_input") or {}
     c = f.get("case") or {}
+    if "backend" in c and "ops" in c:
+        common.repo_on_path()
+        import shutil
+        import tempfile
+        from Pyro5 import nameserver
+        tmp = tempfile.mkdtemp(prefix="c15sql")
+        try:
+            ns = nameserver.NameServer(nameserver.SqlStorage(os.path.join(tmp, "ns.sql")) if c["backend"] == "sql" else nameserver.MemoryStorage())
+            bad = 0
+            for op in c["ops"]:
+                before = dict(ns.storage.everything(return_metadata=True))
+                failed = None
+                try:
+                    if op[0] == "R!":
+                        ns.register(op[1], uri_of(op[2]), safe=op[3], metadata=op[4] and [tuple(t) if isinstance(t, list) else t for t in op[4]])
+                    elif op[0] == "M!":
+                        ns.set_metadata(op[1], [tuple(t) if isinstance(t, list) else t for t in op[2]])
+                    else:
+                        if real_do(ns, tuple(op)) == "nerr":
+                            failed = "NamingError"
+                except Exception as x:
+                    failed = type(x).__name__
+                after = dict(ns.storage.everything(return_metadata=True))
+                print(op, "->", failed or "ok", "| map:", sorted(after))
+                if failed and after != before:
+                    bad = 1
+            print("VIOLATION reproduced" if bad else "not reproduced")
+            return bad
+        finally:
+            shutil.rmtree(tmp, ignore_errors=True)
     if "programs" not in c:
         print(json.dumps(case.get("no_longer_checks")))
         return 1
